@@ -564,6 +564,14 @@ impl Arena {
       ));
     }
 
+    // sizes and offsets of the ARENA are u32.
+    if size > u32::MAX as usize {
+      return Err(std::io::Error::new(
+        std::io::ErrorKind::InvalidInput,
+        "the capacity of the ARENA cannot be larger than u32::MAX",
+      ));
+    }
+
     let allocated = self.allocated();
     if allocated >= size {
       size = allocated;
@@ -583,14 +591,20 @@ impl Arena {
   /// **Note:** If the new capacity is less than the current allocated size, then the ARENA will be truncated to the allocated size.
   ///
   /// # Panic
-  /// Truncating replaces the backing memory, so it panics if the ARENA is shared,
-  /// i.e. there are clones of it or owned buffers or values allocated from it.
+  /// - Truncating replaces the backing memory, so it panics if the ARENA is shared,
+  ///   i.e. there are clones of it or owned buffers or values allocated from it.
+  /// - If the new capacity is larger than `u32::MAX`.
   #[cfg(not(all(feature = "memmap", not(target_family = "wasm"))))]
   pub fn truncate(&mut self, mut size: usize) {
     // the other handles cache the base pointer of the memory we are about to replace.
     assert!(
       self.refs() <= 1,
       "ARENA is shared by clones or owned buffers"
+    );
+    // sizes and offsets of the ARENA are u32.
+    assert!(
+      size <= u32::MAX as usize,
+      "the capacity of the ARENA cannot be larger than u32::MAX"
     );
 
     let allocated = self.allocated();
